@@ -26,6 +26,105 @@ type VSA struct {
 	Opaque int
 	// Derived optionally evaluates further values (by their term) as functions of the tuple.
 	Derived func(t *Term, tuple []int64) (int64, bool)
+
+	// Entry optionally restricts the tuples with which the function is entered (indices into the enumeration).
+	Entry map[int]bool
+
+	summaries map[ssa.CallInstruction]*vsaSummary
+}
+
+// vsaSummary is the analysis of a multi-block repository helper at one call
+// site, with the helper's parameters bound to the caller's argument terms, so
+// that the tracked quantities mean the same in both.
+type vsaSummary struct {
+	sub   *VSA
+	sets  map[*ssa.BasicBlock]map[int]bool
+	exits []*ssa.Return
+}
+
+// exitFor returns the single return of the helper that tuple t can reach.
+func (a *VSA) exitFor(call *ssa.Call, t tuple) (*VSA, *ssa.Return) {
+	callee := StaticRepoCallee(&call.Call)
+	if callee == nil || len(callee.Blocks) < 2 || len(a.Tracked) == 0 || len(callee.Params) != len(call.Call.Args) {
+		return nil, nil
+	}
+	if a.summaries == nil {
+		a.summaries = map[ssa.CallInstruction]*vsaSummary{}
+	}
+	sm := a.summaries[call]
+	if sm == nil {
+		hb := NewBuilder(a.B.P, callee)
+		hb.Bind = map[*ssa.Parameter]*Term{}
+		for i, prm := range callee.Params {
+			hb.Bind[prm] = a.B.Of(call.Call.Args[i], call)
+		}
+		sub := &VSA{B: hb, Tracked: append([]string(nil), a.Tracked...), Ranges: a.Ranges, Derived: a.Derived}
+		sm = &vsaSummary{sub: sub}
+		sm.sets, _ = sub.Run()
+		for _, blk := range callee.Blocks {
+			if len(blk.Instrs) == 0 {
+				continue
+			}
+			if ret, ok := blk.Instrs[len(blk.Instrs)-1].(*ssa.Return); ok {
+				sm.exits = append(sm.exits, ret)
+			}
+		}
+		a.summaries[call] = sm
+	}
+	// index of t in the tuple enumeration (mixed radix, first component most significant)
+	idx := 0
+	for i, r := range a.Ranges {
+		if i >= len(t) || t[i] < r[0] || t[i] > r[1] {
+			return nil, nil
+		}
+		idx = idx*int(r[1]-r[0]+1) + int(t[i]-r[0])
+	}
+	var hit *ssa.Return
+	for _, ret := range sm.exits {
+		if sm.sets[ret.Block()][idx] {
+			if hit != nil {
+				return nil, nil
+			}
+			hit = ret
+		}
+	}
+	if hit == nil {
+		return nil, nil
+	}
+	return sm.sub, hit
+}
+
+// nilness evaluates whether the pointer/interface value v is nil for tuple t.
+func (a *VSA) nilness(v ssa.Value, t tuple, depth int) (isNil, ok bool) {
+	if depth > 30 {
+		return false, false
+	}
+	switch x := v.(type) {
+	case *ssa.Const:
+		return x.Value == nil, x.Value == nil
+	case *ssa.MakeInterface, *ssa.Alloc, *ssa.MakeSlice, *ssa.MakeMap, *ssa.MakeClosure, *ssa.FieldAddr, *ssa.IndexAddr:
+		return false, true
+	case *ssa.ChangeInterface:
+		return a.nilness(x.X, t, depth+1)
+	case *ssa.UnOp:
+		// a package-level error variable initialised once to a non-nil value (errors.New …)
+		if g, isG := x.X.(*ssa.Global); isG && x.Op == token.MUL {
+			if a.B.P.initNonNil(g) {
+				return false, true
+			}
+		}
+	case *ssa.Extract:
+		if call, isCall := x.Tuple.(*ssa.Call); isCall {
+			if sub, ret := a.exitFor(call, t); ret != nil && x.Index < len(ret.Results) {
+				return sub.nilness(ret.Results[x.Index], t, depth+1)
+			}
+		}
+	case *ssa.Call:
+		if sub, ret := a.exitFor(x, t); ret != nil && len(ret.Results) == 1 {
+			return sub.nilness(ret.Results[0], t, depth+1)
+		}
+	}
+	return false, false
 }
 
 type tuple []int64
@@ -57,7 +156,9 @@ func (a *VSA) Run() (map[*ssa.BasicBlock]map[int]bool, []tuple) {
 		sets[blk] = map[int]bool{}
 	}
 	for i := range tuples {
-		sets[fn.Blocks[0]][i] = true
+		if a.Entry == nil || a.Entry[i] {
+			sets[fn.Blocks[0]][i] = true
+		}
 	}
 	work := []*ssa.BasicBlock{fn.Blocks[0]}
 	opaque := map[*ssa.If]bool{}
@@ -167,6 +268,19 @@ func (a *VSA) eval(v ssa.Value, t tuple, depth int) (int64, bool) {
 				}
 			}
 		}
+		if x.Op == token.EQL || x.Op == token.NEQ {
+			for _, pair := range [][2]ssa.Value{{x.X, x.Y}, {x.Y, x.X}} {
+				if c, isC := pair[1].(*ssa.Const); isC && c.Value == nil {
+					if isNil, ok := a.nilness(pair[0], t, depth+1); ok {
+						if isNil == (x.Op == token.EQL) {
+							return 1, true
+						}
+						return 0, true
+					}
+					return 0, false
+				}
+			}
+		}
 		l, ok1 := a.eval(x.X, t, depth+1)
 		r, ok2 := a.eval(x.Y, t, depth+1)
 		if !ok1 || !ok2 {
@@ -231,8 +345,21 @@ func (a *VSA) eval(v ssa.Value, t tuple, depth int) (int64, bool) {
 			}
 		}
 		return a.eval(x.Edges[n-1], t, depth+1)
+	case *ssa.Extract:
+		if call, isCall := x.Tuple.(*ssa.Call); isCall {
+			if sub, ret := a.exitFor(call, t); ret != nil && x.Index < len(ret.Results) {
+				return sub.eval(ret.Results[x.Index], t, depth+1)
+			}
+		}
+		return 0, false
 	case *ssa.Call:
 		callee := StaticRepoCallee(&x.Call)
+		if callee != nil && len(callee.Blocks) > 1 {
+			if sub, ret := a.exitFor(x, t); ret != nil && len(ret.Results) == 1 {
+				return sub.eval(ret.Results[0], t, depth+1)
+			}
+			return 0, false
+		}
 		if callee == nil || len(callee.Blocks) != 1 {
 			return 0, false
 		}
@@ -397,3 +524,32 @@ func SetOf(tuples []tuple, idx map[int]bool, k int) map[int64]bool {
 
 // Tuple exposes a tuple as a slice.
 func TupleOf(tuples []tuple, i int) []int64 { return tuples[i] }
+
+// initNonNil: the package-level variable g is written exactly once in the
+// repository, by its package initializer, with the result of a constructor
+// call or a boxed value (errors.New(…), &T{…}): it is never nil afterwards.
+func (p *Prog) initNonNil(g *ssa.Global) bool {
+	n, good := 0, false
+	for _, fn := range p.RepoFuncs("") {
+		for _, blk := range fn.Blocks {
+			for _, ins := range blk.Instrs {
+				st, ok := ins.(*ssa.Store)
+				if !ok || st.Addr != g {
+					continue
+				}
+				n++
+				if fn.Synthetic == "package initializer" {
+					switch v := st.Val.(type) {
+					case *ssa.MakeInterface, *ssa.Alloc:
+						good = true
+					case *ssa.Call:
+						if c := v.Call.StaticCallee(); c != nil && (c.String() == "errors.New" || c.String() == "fmt.Errorf") {
+							good = true
+						}
+					}
+				}
+			}
+		}
+	}
+	return n == 1 && good
+}
